@@ -3898,9 +3898,10 @@ impl LineBuf {
 		#[cfg(vicut_verif)]
 		crate::verif::trace_cmd_begin(&cmd, &self.buffer, self.cursor.get());
 		let clear_redos = !cmd.is_undo_op() || cmd.verb.as_ref().is_some_and(|v| v.1.is_edit());
-		// A typed character continues the open undo record; 'c', 'o' and 'O' open one for the text typed after them.
+		// A typed character, a backspace or a ctrl-w of insert mode continues the open undo record; 'c', 'o' and 'O' open one for the text typed after them.
 		// Every other command, 'r' included, is an undoable change of its own.
-		let continues_insert = cmd.verb.as_ref().is_some_and(|v| matches!(v.1, Verb::InsertChar(_) | Verb::ReplaceChar(_)));
+		let continues_insert = cmd.verb.as_ref().is_some_and(|v| matches!(v.1, Verb::InsertChar(_) | Verb::ReplaceChar(_)))
+			|| cmd.flags.contains(CmdFlags::INSERT_SESSION);
 		let opens_insert = cmd.verb.as_ref().is_some_and(|v| matches!(v.1, Verb::Change | Verb::InsertModeLineBreak(_)));
 		let is_line_motion = cmd.is_line_motion();
 		let is_undo_op = cmd.is_undo_op();
